@@ -24,10 +24,10 @@ case kinds
   {"k": "seq", "steps": [{"files": {name: text}, "argv": [...]}, ...], "fn": "e2e" | "ns"}
       every step in its own scratch cwd, ALL steps one after the other in ONE process -> {"steps": [outcome...], "views": [...]}
 
-Isolation: the worker itself never parses anything.  Every e2e / ns / seq case runs in a forked
-child of the pristine worker (pydoctor imported, nothing parsed yet), so no state can leak from one case to the next;
-ini/toml/validate cases build their own parser objects and run in the worker itself;
-a "seq" case is the one place where several parses share a process, on purpose.
+Isolation: a "seq" case, and an e2e / ns case with "isolate": true, runs in a forked child of the worker.  The
+harness sends such cases in payloads of their own, so the worker has imported pydoctor but parsed nothing when it
+forks: every child starts from the state a fresh `pydoctor` process has.  Ordinary e2e / ns cases share the worker
+process (a fork per case is too slow for thousands of cases).
 """
 import contextlib
 import enum
@@ -281,7 +281,7 @@ def main():
     for c in cases:
         k = c['k']
         if k in ('e2e', 'ns'):
-            res.append(isolated(run_e2e, c) if not os.environ.get("NOFORK") else run_e2e(c))
+            res.append(isolated(run_e2e, c) if c.get("isolate") else run_e2e(c))
         elif k == 'seq':
             res.append(isolated(run_seq, c))
         elif k in ('ini', 'toml'):
